@@ -4,6 +4,11 @@ import Uft.Model.DirGuard
    cd <d> <old> <faults|-> | <tree tokens>      -> "ok=<0|1> | <canonical tree>"
    cdpre … (same, pre-fix code)
    live <tmp> <faults|-> | <tree> | <filled>    -> "<canonical tree>"
+   trace <faults|-> <ev>,<ev>,… | <tree> | <filled 1> | <filled 2> …
+     an execution path of a command (Model/DirGuard `stepEv`): c:<name> create_directory(name) (the
+     model says whether it succeeds; the k-th successful one is then filled with <filled k>),
+     r:<name> remove_directory(name), f:<name> mkstemp+unlink (a no-op on the tree)
+     -> "res=<0|1 per c:> g=<guarded? 0|1> | <canonical tree>"
    tree tokens: F <name> <hex|->   L <name> <target>   D <name> … E
 -/
 namespace Driver.C20
@@ -74,8 +79,50 @@ def splitBar (ws : List String) : List (List String) :=
     | [] => [[w]]
     | a :: r => (w :: a) :: r) [[]]
 
+structure TraceRun where
+  st : Env × Ents
+  fills : List Ents
+  res : String := ""
+  evs : List DEv := []
+  bad : Bool := false
+
+def traceStep (r : TraceRun) (t : String) : TraceRun :=
+  match t.splitOn ":" with
+  | ["c", n] =>
+    let cr := createDirectory r.st.1 r.st.2 n (n ++ ".old")
+    if cr.ok then
+      let fl := r.fills.headD .nil
+      match stepEv id (fun _ => fl) r.st (.createOk n) with
+      | some st2 => { r with st := st2, fills := r.fills.drop 1, res := r.res ++ "1", evs := r.evs ++ [.createOk n] }
+      | none => { r with bad := true }
+    else
+      match stepEv id (fun _ => .nil) r.st (.createFail n) with
+      | some st2 => { r with st := st2, res := r.res ++ "0", evs := r.evs ++ [.createFail n] }
+      | none => { r with bad := true }
+  | ["r", n] =>
+    match stepEv id (fun _ => .nil) r.st (.remove n) with
+    | some st2 => { r with st := st2, evs := r.evs ++ [.remove n] }
+    | none => { r with bad := true }
+  | ["f", n] =>
+    -- the harness does nothing for it; for the guard it counts only when the name is really free
+    if (r.st.2.get n).isNone then { r with evs := r.evs ++ [.fresh n] } else r
+  | _ => { r with bad := true }
+
+def handleTrace (fl evs : String) (parts : List (List String)) : String :=
+  match parts with
+  | tree :: filled =>
+    match parseFaults fl, parseEnts tree with
+    | some faults, some (fs, []) =>
+      let fills := filled.map fun f => match parseEnts f with | some (es, []) => es | _ => .nil
+      let r := (evs.splitOn ",").foldl traceStep { st := ({ faults := faults }, fs), fills := fills }
+      if r.bad then "bad-op" else
+      s!"res={r.res} g={if guarded r.evs then 1 else 0} | {render r.st.2}"
+    | _, _ => "bad-op"
+  | [] => "bad-op"
+
 def handle (ws : List String) : String :=
   match splitBar ws with
+  | ["trace", fl, evs] :: parts => handleTrace fl evs parts
   | [[cmd, d, old, fl], tree] =>
     match parseFaults fl, parseEnts tree with
     | some faults, some (fs, []) =>
